@@ -177,6 +177,30 @@ func c11context() []Choice {
 	}
 }
 
+// c11lifecycle: the validator life-cycle messages and their read-only twins, explored from the
+// non-initial states of statePreludes (jailed, unstaking, unstaking while jailed, tombstoned): which
+// of them is refused depends on the state; whichever is refused must leave no trace.
+func c11lifecycle() []Choice {
+	unjail := chain.TxSpec{Msg: "unjail", From: 0}
+	at := func(label string, dt time.Duration, e chain.Event) Choice {
+		return Choice{Label: label, Block: chain.Block{DT: dt, Events: []chain.Event{e}}}
+	}
+	return []Choice{
+		txB("unjail(k0)", unjail),
+		at("dt=2s unjail(k0)", 2*time.Second, txE(unjail)),
+		at("dt=3s unjail(k0)", 3*time.Second, txE(unjail)),
+		at("dt=2s simulate(unjail k0)", 2*time.Second, chain.Event{Kind: "simulate", Tx: &unjail}),
+		at("dt=2s check(unjail k0)", 2*time.Second, chain.Event{Kind: "check", Tx: &unjail}),
+		txB("unstake(k0)", chain.TxSpec{Msg: "unstake", From: 0}),
+		txB("stake(k0,min)", chain.TxSpec{Msg: "stake", From: 0, Amount: min}),
+		txB("stake(k0,4min)", chain.TxSpec{Msg: "stake", From: 0, Amount: 4 * min}),
+		txB("unjail(k1) not jailed", chain.TxSpec{Msg: "unjail", From: 1}),
+		{Label: "dt=3s", Block: chain.Block{DT: 3 * time.Second}},
+		{Label: "miss(k0)", Block: chain.Block{Missed: []int{0}}},
+		txB("raise-min", chain.TxSpec{Msg: "change_param", From: 4, Key: "pos/StakeMinimum", Val: `"2500000"`}),
+	}
+}
+
 // c11sandwich: the judged event placed alone / before / between / after valid transactions.
 func c11sandwich(judged []Choice) []Choice {
 	v1 := chain.Event{Kind: "tx", Tx: &chain.TxSpec{Msg: "send", From: 3, To: 2, Amount: 3}}
@@ -428,6 +452,11 @@ func init() {
 				hostile = sub
 			}
 			scs = append(scs, Scenario{Name: "hostile-bytes", Cfg: c11cfg(), Alphabet: hostile, K: 1, D: 1, Tail: 1})
+			kl, dl := 2, 2
+			if tier == "thorough" {
+				kl, dl = 3, 3
+			}
+			scs = fromStates(scs, c11cfg(), c11lifecycle(), kl, dl, "k0-jailed", "k0-unstaking", "k0-unstaking-jailed", "k0-tombstoned", "k0-slashed-half")
 			if tier == "thorough" {
 				scs = append(scs, Scenario{Name: "after-2-contexts", Cfg: c11cfg(), Alphabet: append(append([]Choice{}, ctx...), judged...), K: 3, D: 3, Tail: 1})
 			}
@@ -436,7 +465,7 @@ func init() {
 		Run: func(sc *Scenario, blocks []chain.Block) HistResult {
 			return RunC11History(sc.Cfg, sc.Prelude, blocks)
 		},
-		Rule:   "catalogue of judged calls: undecodable/corrupted bytes (6), ValidateBasic failures (6), unusual transfers (7), ante failures (6), handler precondition failures and handler panics (22), CheckTx (4), Simulate (5), Query (26: store key/subspace/proof/heights, custom queries of all modules, app, p2p, malformed paths); each placed alone, before, between and after valid transactions, and after every pair of context blocks (stake, begin-unstake, missed vote, double-sign evidence, raised minimum stake, transfer); non-trivial = a state-changing transaction also succeeded in the history",
+		Rule:   "catalogue of judged calls: undecodable/corrupted bytes (6), ValidateBasic failures (6), unusual transfers (7), ante failures (6), handler precondition failures and handler panics (22), CheckTx (4), Simulate (5), Query (26: store key/subspace/proof/heights, custom queries of all modules, app, p2p, malformed paths); each placed alone, before, between and after valid transactions, and after every pair of context blocks (stake, begin-unstake, missed vote, double-sign evidence, raised minimum stake, transfer); the validator life-cycle messages (unjail before/at/after the jail time, begin-unstake, stake again, their Simulate/CheckTx twins) from the non-initial states jailed / unstaking / unstaking-while-jailed / tombstoned / slashed; non-trivial = a state-changing transaction also succeeded in the history",
 		QuickS: 240, ThoroughS: 1500,
 		Assume: []string{"a transaction counts as refused-before-the-handler when its result carries no message/action event; otherwise the handler ran and only signer -> fee collector may move", "the control run removes the read-only calls and must produce byte-identical consensus responses and app hashes"},
 	})
